@@ -432,7 +432,9 @@ fn gen_tx(rng: &mut Rng, w: &Weights, cfg: &Config, gw: &mut GenWorld, id: u32, 
                         ActOp::Rollup { rollup: rng.below(u64::from(N_ROLLUPS)) as u8, len, fee_asset }
                     }
                     2 => ActOp::Ics20Withdrawal {
-                        asset: rng.below(u64::from(N_ASSETS)) as u8,
+                        // mostly assets the account is likely to hold (native = source zone on both
+                        // channels; asset 2 = sink zone on channel-0)
+                        asset: *rng.pick(&[0u8, 0, 0, 0, 0, 2, 2, 1, 3]),
                         amt: gen_amt(rng),
                         channel: rng.below(2) as u8,
                         fee_asset,
@@ -460,7 +462,14 @@ fn gen_tx(rng: &mut Rng, w: &Weights, cfg: &Config, gw: &mut GenWorld, id: u32, 
             let fee_asset = gw.fee_asset(rng);
             if gw.bridges.len() < 3 && (gw.bridges.is_empty() || rng.chance(1, 4)) {
                 signer = gw.plain_account(rng, na);
-                let asset = if rng.chance(3, 4) { 0 } else { rng.below(u64::from(N_ASSETS)) as u8 };
+                let asset = if w.ics20 > 0 {
+                    // IBC workloads: bridges of source-zone and sink-zone assets alike
+                    *rng.pick(&[0u8, 0, 1, 2, 2, 3])
+                } else if rng.chance(3, 4) {
+                    0
+                } else {
+                    rng.below(u64::from(N_ASSETS)) as u8
+                };
                 let sudo = if rng.chance(1, 2) { Some(rng.below(u64::from(na)) as u8) } else { None };
                 let withdrawer = if rng.chance(1, 2) { Some(rng.below(u64::from(na)) as u8) } else { None };
                 gw.bridges.entry(signer).or_insert((asset, sudo.unwrap_or(signer), withdrawer.unwrap_or(signer)));
@@ -489,7 +498,7 @@ fn gen_tx(rng: &mut Rng, w: &Weights, cfg: &Config, gw: &mut GenWorld, id: u32, 
                     for _ in 0..n_actions {
                         let fee_asset = gw.fee_asset(rng);
                         let event = gw.event(rng, bridge);
-                        let a = match rng.weighted(&[50, 30, if w.ics20 > 0 { 25 } else { 4 }]) {
+                        let a = match rng.weighted(&[50, 30, if w.ics20 > 0 { 60 } else { 4 }]) {
                             0 => ActOp::BridgeUnlock { bridge, to: rng.below(u64::from(na)) as u8, amt: gen_amt(rng), fee_asset, event },
                             1 => {
                                 let others: Vec<u8> = gw.bridges.iter().filter(|(k, v)| **k != bridge && (v.0 == b_asset || rng.chance(1, 8))).map(|(k, _)| *k).collect();
